@@ -290,6 +290,9 @@ var templates = []string{
 	// a command read with getline that also writes to its standard error, while the program goes on printing: the
 	// configuration gives Output and Error the same writer, so the child's stderr and the program's own output meet
 	// there (the order of the lines is not defined: execOnce compares them sorted)
+	// a child that shares the program's writer is still writing while the program reports errors of its own to the
+	// same writer (Error is Output here): messages and child lines meet there, in an order the schedule decides
+	"NR <= 2 { print \"to-cat-\" NR | \"cat\"; fflush(\"cat\"); for (i = 0; i < 30; i++) fflush(\"nosuch\"); close(\"cat\") }",
 	"NR <= 2 { cmd = \"echo sh-err-\" NR \" >&2; echo sh-out-\" NR; cmd | getline r; print \"got\", r; print \"more\", NR; close(cmd) }",
 }
 
@@ -367,7 +370,7 @@ func execOnce(prog *parser.Program, input string, native bool, cancelled bool) r
 		status, err = interp.ExecProgram(prog, cfg)
 	}
 	r := result{out: out.String(), status: status}
-	if strings.Contains(r.out, "sh-err-") {
+	if strings.Contains(r.out, "sh-err-") || strings.Contains(r.out, "to-cat-") {
 		// the child's stderr lines land between the program's own lines at a point the schedule decides
 		ls := strings.Split(r.out, "\n")
 		sort.Strings(ls)
